@@ -80,6 +80,8 @@ def tasks(tier):
     for fname, kw in (("run_threefield", dict(blocks="grad+FF")), ("run_neohooke", dict(cfg="mu+bulk")), ("run_ogden", dict(case="unloading"))):
         ts.append(("material evaluation history %s" % fname, "run_included", dict(modname="c03", fname=fname, kwargs=kw, oid="C01.O1h", select_oid="C03.O1h",
                                                                                 why="the assembled matrix is the derivative of the assembled vector only if both evaluate the material as a function of the current state alone")))
+    for cfg in ("NeoHooke(bulk)", "NeoHooke(mu,bulk)", "Volumetric", "NeoHookeCompressible"):
+        ts.append(("re-assembly %s" % cfg, "run_reassembly", dict(cfg=cfg)))
     ts.append(("loads", "run_loads", {}))
     ts.append(("multipoint", "run_multipoint", {}))
     ts.append(("pressure+cauchy", "run_surface", {}))
@@ -281,6 +283,47 @@ def run_state_consistency(col, body_kind):
     now = npmodel.to_obj(np.asarray(it.getattr(res, "statevars")))
     col.add("C01.O1z", "%s committed state untouched by assembly" % body_kind, "assembling vector and matrix does not change results.statevars",
             now.shape == committed.shape and all(is_zero(P(a) - P(b)) for a, b in zip(now.reshape(-1), committed.reshape(-1))))
+    finish_info(col, it)
+
+
+def run_reassembly(col, cfg):
+    """a body assembled at one state and then at another returns, at the second state, what a fresh body returns there: the result
+    buffers the body hands to the material (out=) and its cached kinematics carry nothing over -- with felupe's own hand-coded materials"""
+    from .c02 import diff_dense
+
+    it = new_interp()
+    fc, unknowns, (ra, rb), d, tdim = setup_fields(it, "PlaneStrain", nq=1)
+    base = "felupe.constitution.hyperelasticity."
+    mu, bulk = sym("mu", True), sym("bulk", True)
+    if cfg == "NeoHooke(bulk)":
+        mk = lambda: it.call(it.get(base + "_neo_hooke_nearly_incompressible:NeoHooke"), [], dict(bulk=bulk))
+    elif cfg == "NeoHooke(mu,bulk)":
+        mk = lambda: it.call(it.get(base + "_neo_hooke_nearly_incompressible:NeoHooke"), [], dict(mu=mu, bulk=bulk))
+    elif cfg == "Volumetric":
+        mk = lambda: it.call(it.get(base + "_volumetric:Volumetric"), [], dict(bulk=bulk))
+    else:
+        mk = lambda: it.call(it.get(base + "_neo_hooke_compressible:NeoHookeCompressible"), [], dict(mu=mu, lmbda=sym("lmbda", True)))
+    cls = it.get("felupe.mechanics._solidbody:SolidBody")
+    f0 = fc.attrs["fields"][0]
+    U1 = f0.attrs["values"]
+    U2 = symarray("V", np.asarray(U1).shape)
+
+    def chk():
+        body = it.call(cls, [], dict(umat=mk(), field=fc))
+        asm = it.getattr(body, "assemble")
+        it.call(it.getattr(asm, "vector"), [fc], {})
+        it.call(it.getattr(asm, "matrix"), [fc], {})
+        it.setattr(f0, "values", U2)
+        r2 = micro.dense(it.call(it.getattr(asm, "vector"), [fc], {})).copy()
+        K2 = micro.dense(it.call(it.getattr(asm, "matrix"), [fc], {})).copy()
+        fresh = it.call(cls, [], dict(umat=mk(), field=fc))
+        rf = micro.dense(it.call(it.getattr(it.getattr(fresh, "assemble"), "vector"), [fc], {}))
+        Kf = micro.dense(it.call(it.getattr(it.getattr(fresh, "assemble"), "matrix"), [fc], {}))
+        it.setattr(f0, "values", U1)
+        bad = diff_dense(r2, rf)[:2] + diff_dense(K2, Kf)[:2]
+        return not bad, "%s: %s" % (method_where(cls, "_vector"), "; ".join(b[:160] for b in bad))
+    col.check("C01.O1r", "SolidBody(%s) re-assembled at another state" % cfg,
+              "vector and matrix assembled at a second state equal those of a fresh body at that state (nothing is carried over in re-used result buffers)", chk)
     finish_info(col, it)
 
 
